@@ -42,6 +42,8 @@ def jobs(tier, seed):
         out.append({"id": f"incbin/{rom}", "t": "incbin", "rom": rom})
         out.append({"id": f"incbin-scope/{rom}", "t": "incbin", "rom": rom, "scoped": True})
         out.append({"id": f"incbin-file-changed/{rom}", "t": "incbin", "rom": rom, "twice": True})
+        # the source is named with a directory part and a copy of the binary lies next to it: same bytes, same symbol names
+        out.append({"id": f"incbin-source-in-directory/{rom}", "t": "incbin", "rom": rom, "srcdir": True})
     # entries naming a symbol that an outer scope binds while the program is expanded (`:=`, loop variable,
     # macro parameter) and the directive's own scope defines by `=` / a label: the nearest definition is emitted
     for k in SHADOW:
@@ -112,7 +114,19 @@ def run(spec, cx):
             m = cx.int("m", 0, 0xFF)
             with virtual_files(cx, {"data.bin": cx.blob("older-content", m)}):
                 assemble("*= p\n.incbin 'data.bin'\n.dl data_bin__size\n", {"p": p}, rom=spec["rom"])
-        with virtual_files(cx, {"data.bin": cx.blob("data.bin", n)}):
+        blob = cx.blob("data.bin", n)
+        if spec.get("srcdir"):
+            from harness.common import RecWriter, new_program
+
+            with virtual_files(cx, {"data.bin": blob, "proj/src/data.bin": blob}):
+                prog = new_program(spec["rom"], {"p": p})
+                w = RecWriter()
+                try:
+                    err = prog.assemble_string_with_emitter("*= p\n.incbin 'data.bin'\nend:\n.dl data_bin, data_bin__size, end\n", "proj/src/main.s", w)
+                except Exception as e:  # noqa: BLE001
+                    return ("rejected", type(e).__name__)
+                return ("ok", [(a, b) for a, b in w.blocks]) if err is None else ("rejected", "error-string")
+        with virtual_files(cx, {"data.bin": blob}):
             if spec.get("scoped"):
                 src = "*= p\n{\n.incbin 'data.bin'\n.dl data_bin, data_bin__size\n}\nend:\n.dl end\n"
             else:
